@@ -61,11 +61,16 @@ static unsigned long g_execs = 0, g_passed_gate = 0;
 static std::set<uint64_t> g_gate_fps;
 static std::string g_stats_file;
 
+// Known finding `manifest-contents-asserts` (open): with assertions enabled, a correctly framed MANIFEST or log record with
+// inconsistent contents trips assert() in recovery.  Assertion-build campaigns exclude that path by construction (counted) so that the
+// search goes on; a separate short campaign keeps exhibiting it.
+static bool g_no_framed_manifest = false;
+static unsigned long g_excluded_known = 0;
 static void flush_stats() {
   if (g_stats_file.empty()) return;
   FILE *f = fopen(g_stats_file.c_str(), "w");
   if (!f) return;
-  fprintf(f, "{\"execs\": %lu, \"passed_gate\": %lu, \"distinct_passed_gate\": %zu}\n", g_execs, g_passed_gate, g_gate_fps.size());
+  fprintf(f, "{\"execs\": %lu, \"passed_gate\": %lu, \"distinct_passed_gate\": %zu, \"excluded_known\": %lu}\n", g_execs, g_passed_gate, g_gate_fps.size(), g_excluded_known);
   fclose(f);
 }
 
@@ -211,6 +216,31 @@ static void target_edit(const uint8_t *data, size_t size) {
     ldb_buffer_clear(&dbg);
     ldb_edit_clear(&e2);
     ldb_buffer_clear(&out);
+    // the consumer of an accepted edit is the version builder of recovery: hand it the edit inside a correctly framed
+    // MANIFEST (a base record, then the edit) and open that directory
+    if (g_no_framed_manifest) g_excluded_known++;
+    else {
+      std::string d = g_scratch + "/editdb";
+      mkdir(d.c_str(), 0755);
+      for (auto &n : list_dir(d)) unlink((d + "/" + n).c_str());
+      ref::Edit base;
+      base.has_comparator = true; base.comparator = "leveldb.BytewiseComparator";
+      base.has_log = true; base.log = 0; base.has_next = true; base.next_file = 10; base.has_last_seq = true; base.last_seq = 100;
+      std::string mf;
+      ref::log_append(mf, ref::edit_encode(base));
+      ref::log_append(mf, std::string((const char *)data, size));
+      write_file(d + "/MANIFEST-000002", mf);
+      write_file(d + "/CURRENT", "MANIFEST-000002\n");
+      ldb_dbopt_t o = *ldb_dbopt_default;
+      o.create_if_missing = 0;
+      o.paranoid_checks = (size & 1);
+      ldb_t *db = NULL;
+      if (ldb_open(d.c_str(), &o, &db) == LDB_OK) {
+        char *p = NULL;
+        if (ldb_property(db, "leveldb.sstables", &p) && p) ldb_free(p);
+        ldb_close(db);
+      }
+    }
   }
   ldb_edit_clear(&e);
   free(heap);
@@ -392,7 +422,7 @@ static void target_dbdir(const uint8_t *data, size_t size) {
   for (int m = 0; m < nmut && fdp.remaining_bytes() > 0; m++) {
     size_t fi = fdp.ConsumeIntegralInRange<size_t>(0, files.size() - 1);
     std::string &b = files[fi].second;
-    switch (fdp.ConsumeIntegralInRange<int>(0, 7)) {
+    switch (fdp.ConsumeIntegralInRange<int>(0, 10)) {
       case 0: { if (b.empty()) break; size_t off = fdp.ConsumeIntegralInRange<size_t>(0, b.size() - 1); std::string r = fdp.ConsumeRandomLengthString(16); for (size_t i = 0; i < r.size() && off + i < b.size(); i++) b[off + i] = r[i]; break; }
       case 1: { if (b.size() < 8) break; size_t off = fdp.ConsumeIntegralInRange<size_t>(0, b.size() - 8); static const uint64_t vals[] = {0, 1, 0x7f, 0x80, 0xff, 0x7fff, 0xffff, 0x7fffffff, 0xffffffffu, 0x100000000ull, ~0ull}; uint64_t v = vals[fdp.ConsumeIntegralInRange<int>(0, 10)]; int w = fdp.ConsumeIntegralInRange<int>(1, 8); for (int i = 0; i < w; i++) b[off + i] = (char)(v >> (8 * i)); break; }
       case 2: { if (b.empty()) break; b.resize(fdp.ConsumeIntegralInRange<size_t>(0, b.size())); break; }
@@ -407,6 +437,29 @@ static void target_dbdir(const uint8_t *data, size_t size) {
         ref::put_varint64(v, vals[fdp.ConsumeIntegralInRange<int>(0, 8)]);
         size_t off = fdp.ConsumeIntegralInRange<size_t>(0, b.size() - 1);
         for (size_t i = 0; i < v.size() && off + i < b.size(); i++) b[off + i] = v[i];
+        break;
+      }
+      case 8: case 9: {
+        // log-format files (MANIFEST, *.log): damage inside a record's payload, then frame the records again with valid
+        // checksums, so that the damage reaches the version-edit / write-batch decoders and their consumers instead of
+        // being dropped by the log reader
+        const std::string &nm = files[fi].first;
+        bool logfmt = nm.compare(0, 9, "MANIFEST-") == 0 || (nm.size() > 4 && nm.compare(nm.size() - 4, 4, ".log") == 0);
+        if (!logfmt) break;
+        if (g_no_framed_manifest) { g_excluded_known++; break; }
+        ref::LogDecode ld = ref::log_decode(b);
+        if (ld.records.empty()) break;
+        size_t ri = fdp.ConsumeIntegralInRange<size_t>(0, ld.records.size() - 1);
+        std::string &r = ld.records[ri];
+        int how = fdp.ConsumeIntegralInRange<int>(0, 4);
+        if (how == 0 && !r.empty()) { size_t off = fdp.ConsumeIntegralInRange<size_t>(0, r.size() - 1); static const unsigned char small[] = {0, 1, 2, 5, 6, 7, 8, 9, 0x7f, 0x80, 0xff}; r[off] = (char)small[fdp.ConsumeIntegralInRange<int>(0, 10)]; }
+        else if (how == 1 && !r.empty()) { size_t off = fdp.ConsumeIntegralInRange<size_t>(0, r.size() - 1); std::string x = fdp.ConsumeRandomLengthString(12); for (size_t i = 0; i < x.size() && off + i < r.size(); i++) r[off + i] = x[i]; }
+        else if (how == 2) r.resize(fdp.ConsumeIntegralInRange<size_t>(0, r.size()));
+        else if (how == 3) { static const uint64_t vals[] = {0xffffffffull, 0x80000000ull, 0x7fffffffull, 0x100000000ull, ~0ull, 7, 8, 0x7full, 0x80ull}; std::string v; ref::put_varint64(v, vals[fdp.ConsumeIntegralInRange<int>(0, 8)]); size_t off = r.empty() ? 0 : fdp.ConsumeIntegralInRange<size_t>(0, r.size() - 1); for (size_t i = 0; i < v.size() && off + i < r.size(); i++) r[off + i] = v[i]; }
+        else r = fdp.ConsumeRandomLengthString(300);
+        std::string nb;
+        for (auto &rec : ld.records) ref::log_append(nb, rec);
+        b = nb;
         break;
       }
       default: { b = fdp.ConsumeRandomLengthString(200); break; }
@@ -532,6 +585,7 @@ extern "C" int LLVMFuzzerInitialize(int *, char ***) {
   g_target = t ? t : "block";
   g_scratch = scratch_root();
   if (const char *s = getenv("VF_FUZZ_STATS")) g_stats_file = s;
+  g_no_framed_manifest = getenv("VF_FUZZ_NO_FRAMED_MANIFEST") != nullptr;
   ldb_crc32c_init();
   if (const char *sd = getenv("VF_FUZZ_WRITE_SEEDS")) write_seeds(sd);
   atexit(flush_stats);
